@@ -249,6 +249,70 @@ def check(F, rep, tier):
             rep.bad("R01.5", v["key"].split(":", 1)[1], v["msg"], v["site"])
         for r, d in sub.rules.items():
             for _ in range(d["instances"] - d["violations"]): rep.ok("R01.5", "stdout discipline (%s)" % r)
+    # ---- R01.9 the output prefix is put in front of the version whenever one is given ---------------------------------------------
+    fo = F.fn("crate::cli::utils::output_formatter::OutputFormatter::format_output")
+    if rep.anchor("R01.9", "OutputFormatter::format_output", fo):
+        rep.fn_seen(fo)
+        def mentions(e, pred, depth=0):
+            if depth > 40 or not isinstance(e, (tuple, list)): return False
+            if isinstance(e, tuple) and pred(e): return True
+            return any(mentions(x, pred, depth + 1) for x in e if isinstance(e, (tuple, list)))
+        is_prefix = lambda e: e == ("param", 3)
+        is_version = lambda e: len(e) > 1 and e[0] == "call" and isinstance(e[1], str) and (e[1].endswith("render_string") or e[1].endswith("format_base_output") or e[1].endswith("::render"))
+        try:
+            fi = mir.inlined(F, fo, depth=2, keep=("render_string", "format_base_output", "render"))
+            nsome = 0; bad = None; unsure = None
+            for sp in mir.sym_paths(fi, limit=20000):
+                r = sp.ret()
+                if not (r[0] == "agg" and str(r[1]).endswith("Result::Ok") and r[2]): continue
+                val = r[2][0][1]
+                has_prefix = None
+                for d, tr, b in sp.facts():
+                    if d[0] == "discr" and d[1] == ("param", 3) and isinstance(tr, tuple):
+                        has_prefix = (tr[0] == "eq" and 1 in tr[1]) or (tr[0] == "ne" and 0 in tr[1] and 1 not in tr[1])
+                if has_prefix is None:
+                    if not mentions(val, is_prefix): unsure = "a successful return that does not test whether a prefix was given"
+                    continue
+                if not has_prefix: continue
+                nsome += 1
+                if not mentions(val, is_version): unsure = "the returned text is not recognisably the rendered version"
+                elif not mentions(val, is_prefix):
+                    conds = [mir.show(d)[:60] for d, tr, b in sp.facts() if not (d[0] == "discr")]
+                    bad = "with a prefix given, format_output can return the rendered version without it (path conditions: %s): stdout is then not prefix + version" % conds
+            if bad: rep.bad("R01.9", "prefix-dropped", bad, fo.where())
+            elif unsure or not nsome: rep.undecided("R01.9", "prefix-shape", unsure or "no path with a prefix found", fo.where())
+            else: rep.ok("R01.9", "every successful return with a prefix given contains the prefix and the rendered version (%d paths)" % nsome, nontrivial_key="prefix")
+        except mir.TooManyPaths:
+            rep.undecided("R01.9", "prefix-shape", "too many paths", fo.where())
+    # ---- R01.10 reading a PEP 440 version keeps the length of its release: an absent part stays absent ------------------------------
+    tz = F.fn("crate::version::pep440::to_zerv::<impl crate::version::pep440::core::PEP440>::to_zerv_with_schema")
+    if rep.anchor("R01.10", "PEP440::to_zerv_with_schema", tz):
+        rep.fn_seen(tz)
+        ti = mir.inlined(F, tz, depth=3, keep=("pep440_default", "push_core", "push_build"))
+        nrel = 0
+        for bi, si, st in ti.stmts():
+            if not (st[0] == "=" and st[2][0] == "agg" and (st[2][1].get("adt") or "").endswith("zerv::vars::ZervVars")): continue
+            for nm, op in zip(st[2][1]["fields"], st[2][2]):
+                if nm not in ("major", "minor", "patch"): continue
+                nrel += 1
+                site = "%s bb%d line %s" % (ti.where(), bi, ti.blocks[bi]["line"])
+                kinds = set()
+                for o in mir.trace_op(ti, op, transparent=()):
+                    if o.kind == "call":
+                        c = mir.callee(ti.blocks[o.data]["t"]) or ""
+                        kinds.add("map" if c.endswith("Option::<T>::map") or c.endswith("Option::<T>::and_then") or c.endswith("::copied") or c.endswith("::cloned") else "call:" + c.rsplit("::", 1)[-1])
+                    elif o.kind == "agg":
+                        rv = mir.rv_at(o.fn, *o.data)
+                        if (rv[1].get("adt") or "").endswith("Option") and rv[1].get("variant") == "Some":
+                            dflt = [k for k, d in mir.deep_origins(o.fn, rv[2][0], stop=()) if k == "call" and d.isdigit() and o.fn.blocks[int(d)]["t"][0] == "call" and (mir.callee(o.fn.blocks[int(d)]["t"]) or "").rsplit("::", 1)[-1] in ("unwrap_or", "unwrap_or_default", "unwrap_or_else")]
+                            kinds.add("some-default" if dflt else "some")
+                        else: kinds.add("agg")
+                    else: kinds.add(o.kind)
+                if "some-default" in kinds:
+                    rep.bad("R01.10", "release-zero-filled:" + nm, "ZervVars.%s is Some(release part or a default) even when the PEP 440 release has no such part: a short release ('0', '7.1') is printed back with extra '.0' parts" % nm, site)
+                elif kinds == {"map"}: rep.ok("R01.10", "ZervVars.%s is present exactly when the release has that part" % nm, sample=site, nontrivial_key="rel" + nm)
+                else: rep.undecided("R01.10", "release-part-shape:" + nm, "ZervVars.%s is built from %s" % (nm, sorted(kinds)), site)
+        rep.floor("R01.10", "release parts written to ZervVars", nrel, 3)
     import tables as _t
     _t.sanitizer_presets(F, rep, "R01.8", ("semver_str", "pep440_local_str", "uint", "key"))
     return core.finish(rep, explanation=EXPL, assumptions=ASSUME, trusted=TRUST)
